@@ -49,7 +49,9 @@ Definition terminal_ok (rid : id) (delivered : list msg) : bool :=
     POST completes exactly once; the server answers at most once on the event
     stream, with the request's own id, and not after the request's life is
     over (202-and-silence means NEVER); a 200 reply carries the answer or is
-    not JSON; everything else on the stream is unrelated traffic.  [sched_ok]
+    not JSON; everything else on the stream is unrelated traffic - also a
+    request or notification of the server's own that happens to bear the
+    request's id ([answer_key]: ids are per direction).  [sched_ok]
     accepts a schedule (the events that follow the request being taken off the
     write stream) iff it is such a life, complete. *)
 Inductive phase := PhPosted | PhAnswered | PhAcked | PhAnsweredAcked | PhDone.
@@ -75,11 +77,11 @@ Definition phase_step (rid : id) (ph : phase) (e : ev) : option phase :=
   | ESend _ => None                                   (* one request's life *)
   | ESse None => Some ph
   | ESse (Some m) =>
-      if same_key rid m then
+      if answer_key rid m then
         (if is_terminal rid m then
            match ph with PhPosted => Some PhAnswered | PhAcked => Some PhAnsweredAcked | _ => None end
          else None)
-      else Some ph
+      else Some ph                                      (* unrelated: also a request of the server's own bearing the same id *)
   | EPost p =>
       match ph with
       | PhPosted => post_phase rid p
@@ -118,7 +120,7 @@ Definition post_answers (rid : id) (p : post_res) : bool :=
 Definition late_step (rid : id) (s : late_state) (e : ev) : option late_state :=
   match e with
   | ESse (Some m) =>
-      if same_key rid m then
+      if answer_key rid m then
         (if is_terminal rid m && negb (snd s) then
            match fst s with
            | PhPosted => Some (PhAnswered, true)
@@ -157,7 +159,7 @@ Fixpoint stream_due (rid : id) (s : late_state) (evs : list ev) : list msg :=
   | [] => []
   | e :: r =>
       match e with
-      | ESse (Some m) => if same_key rid m && is_done (fst s) then [] else [m]
+      | ESse (Some m) => if answer_key rid m && is_done (fst s) then [] else [m]
       | _ => []
       end ++
       match late_step rid s e with Some s' => stream_due rid s' r | None => [] end
